@@ -114,11 +114,13 @@ def bits(carrier, dtype, spelling):
     hi = lo if spelling == "int" else lo + sx.choice(top + 1 - lo, "hi")
     n = hi - lo + 1
     blist = list(range(lo, hi + 1))
-    car = CARRIERS[carrier](dtype, lambda v: v.add_bit_definition("FIELD", blist))
+    # a bit list names a set of bits: its order does not matter (lists and definitions written MSB first are common)
+    dlist = blist[::-1] if spelling.endswith("-desc") else blist
+    car = CARRIERS[carrier](dtype, lambda v: v.add_bit_definition("FIELD", dlist))
     if spelling == "int":
         key = lo
-    elif spelling == "list":
-        key = blist
+    elif spelling in ("list", "list-desc"):
+        key = dlist
     elif spelling == "slice":
         key = slice(lo, hi + 1)
     elif spelling == "slice1":
@@ -351,7 +353,9 @@ def jobs(tier):
     out = []
     for carrier in ("sdo", "pdo"):
         for dtype in (U8, U16, U32, I32) + ((U64, I16) if tier == "thorough" else ()):
-            for sp in ("int", "list", "slice", "slice1", "name"):
+            for sp in ("int", "list", "slice", "slice1", "name", "list-desc", "name-desc"):
+                if sp.endswith("-desc") and dtype not in (U8, U32):
+                    continue
                 out.append(dict(func="bits", params=dict(carrier=carrier, dtype=dtype, spelling=sp),
                                 weight=WIDTH[dtype]))
         for dtype in (U8, U32, I32) if tier == "quick" else (U8, U16, U32, I32, I16):
